@@ -139,11 +139,20 @@ def _request(I, a):
     return I.ComponentMetricRequest(a["ns"], a["cid"], I.ComponentMetricId[a["metric"]], start)
 
 
+class ApiFault(ConnectionError):
+    """Raised by the fake API client where the case asks for a failing call."""
+
+
 async def _run(case):
     I = _imports()
     log: list = []
     cats = {cid: cat for cid, cat in case["comps"]}
     suspend = case.get("suspend", {})
+    faults = case.get("faults", {})
+    fail_components = set(faults.get("components", []))          # 1-based indices of failing components() calls
+    fail_data = {int(c): set(v) for c, v in faults.get("data", {}).items()}   # per component: failing *_data() calls
+    ncalls = {"components": 0}
+    ndata: dict = {}
 
     async def _yield(n):
         for _ in range(n):
@@ -168,12 +177,19 @@ async def _run(case):
 
     class FakeClient:
         async def components(self):
+            ncalls["components"] += 1
             await _yield(suspend.get("components", 0))
+            if ncalls["components"] in fail_components:
+                raise ApiFault("components() failed")
             return [I.Component(component_id=cid, category=I.ComponentCategory[cat]) for cid, cat in case["comps"]]
 
         async def _data(self, cid, cat):
             if cats.get(cid) != cat:
                 raise ValueError(f"component {cid} is not a {cat}")
+            ndata[cid] = ndata.get(cid, 0) + 1
+            if ndata[cid] in fail_data.get(cid, ()):
+                log.append(["datafail", cid])
+                raise ApiFault(f"{cat.lower()}_data({cid}) failed")
             log.append(["recv", cid])
             return Tap(api_chans[cid].new_receiver(limit=100000), cid)
 
@@ -192,17 +208,6 @@ async def _run(case):
     saved_cm = I.connection_manager._CONNECTION_MANAGER
     I.connection_manager._CONNECTION_MANAGER = SimpleNamespace(api_client=FakeClient(), component_graph=None)
 
-    # ---- registry: real get_or_create, every call by the source recorded
-    class TapRegistry(I.ChannelRegistry):
-        quiet = False
-
-        def get_or_create(self, message_type, key):
-            if not self.quiet:
-                log.append(["goc", key])
-            return super().get_or_create(message_type, key)
-
-    registry = TapRegistry(name="c20")
-
     class TapSender:
         def __init__(self, inner, key):
             self._inner, self._key = inner, key
@@ -213,6 +218,22 @@ async def _run(case):
             log.append(["enq", self._key, ts, None if v is None else int(v) if v == int(v) else repr(v)])
             await self._inner.send(message)
 
+    # ---- registry: real get_or_create, every call by the source recorded, every sender tapped
+    class TapRegistry(I.ChannelRegistry):
+        quiet = False
+
+        def get_or_create(self, message_type, key):
+            if not self.quiet:
+                log.append(["goc", key])
+            ch = super().get_or_create(message_type, key)
+            if not getattr(ch, "_c20_tapped", False):
+                orig_new_sender = ch.new_sender
+                ch.new_sender = (lambda o=orig_new_sender, k=key: TapSender(o(), k))  # type: ignore[method-assign]
+                ch._c20_tapped = True
+            return ch
+
+    registry = TapRegistry(name="c20")
+
     # receivers on every channel a request of this case names, created before anything runs
     subs = [a for a in case["actions"] if a["t"] == "sub"]
     key_of = {}
@@ -221,47 +242,61 @@ async def _run(case):
     for a in subs:
         req = _request(I, a)
         key = req.get_channel_name()
-        key_of[json.dumps([a["cid"], a["metric"], a["ns"], a.get("start")])] = key
+        key_of[descr(a)] = key
         if key not in out_recv:
-            ch = registry.get_or_create(I.Sample[I.Quantity], key)
-            out_recv[key] = ch.new_receiver(limit=100000)
-            orig_new_sender = ch.new_sender
-            ch.new_sender = (lambda o=orig_new_sender, k=key: TapSender(o(), k))  # type: ignore[method-assign]
+            out_recv[key] = registry.get_or_create(I.Sample[I.Quantity], key).new_receiver(limit=100000)
     TapRegistry.quiet = False
 
-    # ---- the real source (directly or inside the real actor)
-    actor = None
-    if case.get("mode", "direct") == "actor":
-        req_chan = I.Broadcast(name="requests")
-        req_sender = req_chan.new_sender()
-        actor = I.DataSourcingActor(req_chan.new_receiver(limit=1000), registry)
-        source = actor._microgrid_api_source
-    else:
-        source = I.MicrogridApiSource(registry)
+    # ---- every MicrogridApiSource instance is tapped (class-level, restored at the end)
+    SRC = I.MicrogridApiSource
+    orig_add, orig_handle = SRC.add_metric, SRC._handle_data_stream
+    sources: list = []
 
-    orig_add = source.add_metric
-
-    async def add_metric(req):
-        await orig_add(req)
+    async def add_metric(self, req):
+        if self not in sources:
+            sources.append(self)
+        try:
+            await orig_add(self, req)
+        except Exception as exc:  # noqa: BLE001
+            log.append(["addfail", req.component_id, req.get_channel_name(), type(exc).__name__])
+            raise
         log.append(["add", req.component_id, req.get_channel_name()])
-    source.add_metric = add_metric  # type: ignore[method-assign]
 
-    orig_handle = source._handle_data_stream
-
-    async def handle(comp_id, category):
+    async def handle(self, comp_id, category):
+        if self not in sources:
+            sources.append(self)
         log.append(["hstart", comp_id])
         try:
-            return await orig_handle(comp_id, category)
+            return await orig_handle(self, comp_id, category)
         except Exception as exc:  # noqa: BLE001
             log.append(["hcrash", comp_id, type(exc).__name__])
             raise
-    source._handle_data_stream = handle  # type: ignore[method-assign]
 
+    SRC.add_metric = add_metric  # type: ignore[method-assign]
+    SRC._handle_data_stream = handle  # type: ignore[method-assign]
+
+    # ---- the real source (directly or inside the real actor)
+    actor = None
+    source = None
     errors = []
-    if actor is not None:
-        actor.start()
-    sent = {cid: 0 for cid in cats}
     try:
+        if case.get("mode", "direct") == "actor":
+            req_chan = I.Broadcast(name="requests")
+            req_sender = req_chan.new_sender()
+            actor = I.DataSourcingActor(req_chan.new_receiver(limit=1000), registry)
+            orig_run = actor._run
+            nruns = [0]
+
+            async def run_tap():
+                nruns[0] += 1
+                if nruns[0] > 1:
+                    log.append(["restart"])
+                await orig_run()
+            actor._run = run_tap  # type: ignore[method-assign]
+            actor.start()
+        else:
+            source = I.MicrogridApiSource(registry)
+        sent = {cid: 0 for cid in cats}
         for a in case["actions"]:
             g = a.get("gap", 0)
             if g < 0:
@@ -273,7 +308,15 @@ async def _run(case):
                 if actor is not None:
                     await req_sender.send(req)
                 else:
-                    await source.add_metric(req)
+                    try:
+                        await source.add_metric(req)
+                    except ApiFault:
+                        pass
+            elif a["t"] == "close":
+                key = key_of[descr(a)]
+                log.append(["close", key])
+                if key in registry:
+                    await registry.close_and_remove(key)     # the consumer gives its channel up
             elif a["t"] == "msg":
                 cid = a["cid"]
                 k = sent[cid]
@@ -283,11 +326,14 @@ async def _run(case):
                 keep.append(m)   # ids stay unique while the objects are alive
                 log.append(["api", cid, k])
                 await api_senders[cid].send(m)
-        await asyncio.sleep(0.9)   # quiesce; < 1 s so a crashed handler's retry does not add noise at the end
+        # quiesce; without faults < 1 s so that nothing but the scenario is on the trace; with faults
+        # long enough for every RESTART_DELAY (2 s) of the actor and every retry of run_forever (1 s)
+        await asyncio.sleep(2.2 * (len(fail_components) + 1) + 1.3 * sum(len(v) for v in fail_data.values()) + 1.1 if faults else 0.9)
     except Exception as exc:  # noqa: BLE001
         errors.append(f"driver: {type(exc).__name__}: {exc}")
     finally:
-        tasks = list(source.comp_data_tasks.values())
+        SRC.add_metric, SRC._handle_data_stream = orig_add, orig_handle  # type: ignore[method-assign]
+        tasks = [t for src in sources for t in src.comp_data_tasks.values()]
         for t in tasks:
             t.cancel()
         if actor is not None:
@@ -403,13 +449,23 @@ def to_events(case, obs):
             # creates the receiver and looks the channels up (recv/goc burst) or raises (hcrash)
             pending[e[1]] = True   # (an earlier pending one was cancelled by a newer request)
             i += 1
-        elif e[0] in ("recv", "goc", "hcrash"):
+        elif e[0] == "addfail":
+            if e[2] not in tab:
+                return None
+            ev.append((f"AddFault {cZ(e[1])} {c_name(tab[e[2]])}", "ONone"))
+            i += 1
+        elif e[0] == "restart":
+            ev.append(("Restart", "ONone"))
+            i += 1
+        elif e[0] == "close":
+            i += 1      # the consumer's own action: no event of the source
+        elif e[0] in ("recv", "goc", "hcrash", "datafail"):
             cid = e[1] if e[0] != "goc" else (tab[e[1]][0] if e[1] in tab else None)
             if cid is None or not pending.get(cid):
                 return None
             pending[cid] = False
-            created, names, crashed = False, [], False
-            while i < len(log) and log[i][0] in ("recv", "goc", "hcrash"):
+            created, names, crashed, apifault = False, [], False, False
+            while i < len(log) and log[i][0] in ("recv", "goc", "hcrash", "datafail"):
                 x = log[i]
                 xc = x[1] if x[0] != "goc" else (tab[x[1]][0] if x[1] in tab else None)
                 if xc != cid:
@@ -418,6 +474,8 @@ def to_events(case, obs):
                     if names:
                         return None
                     created = True
+                elif x[0] == "datafail":
+                    apifault = True
                 elif x[0] == "goc":
                     names.append(tab[x[1]])
                 else:
@@ -426,7 +484,7 @@ def to_events(case, obs):
                     break
                 i += 1
             if crashed:
-                ev.append((f"HandlerStart {cZ(cid)}", "OCrash"))
+                ev.append((f"{'HandlerFail' if apifault else 'HandlerStart'} {cZ(cid)}", "OCrash"))
             else:
                 ev.append((f"HandlerStart {cZ(cid)}", f"OStart {cbool(created)} {clist(names, c_name)}"))
         elif e[0] == "api":
@@ -466,13 +524,16 @@ Definition mk (ts base : Z) : msg := mkMsg ts (map (fun i => base + Z.of_nat i) 
 HEADER = """From Verif Require Import model.DataSourcing.
 """ + MK + """(* case: components() answer, recorded trace with what was observed at each event, the component ids,
    and per channel (component, name) the samples the harness read from the registry channel *)
-Definition check (c : list (comp * category) * list (event * observed) * list (comp * name * list sample)) : bool :=
-  let '(cl, evs, streams) := c in
+Definition check (c : list (comp * category) * list (event * observed) * list (comp * name * list sample)
+                      * list (comp * name * list sample)) : bool :=
+  let '(cl, evs, streams, closed) := c in
   match run_checked (cats_of cl) init evs with
   | None => false
   | Some s =>
       quiescent s (map fst cl) &&
-      forallb (fun x => list_eqb sample_eqb (chan_out (fst (fst x)) (snd (fst x)) (st_out s)) (snd x)) streams
+      forallb (fun x => list_eqb sample_eqb (chan_out (fst (fst x)) (snd (fst x)) (st_out s)) (snd x)) streams &&
+      (* channels their consumer closed mid-stream: what was read is a prefix of what was sent *)
+      forallb (fun x => prefix_eqb (snd x) (chan_out (fst (fst x)) (snd (fst x)) (st_out s))) closed
   end.
 """
 
@@ -482,18 +543,20 @@ def case_term(case, obs):
     ev = to_events(case, obs)
     if ev is None or obs["errors"]:
         # the run left the model's alphabet: an event no state enables
-        return f"({cl}, [(Deliver, ONone)], @nil (comp * name * list sample))"
+        return f"({cl}, [(Deliver, ONone)], @nil (comp * name * list sample), @nil (comp * name * list sample))"
     evs = "[" + ";\n    ".join(f"({e}, {o})" for e, o in ev) + "]" if ev else "@nil (event * observed)"
     tab = key_table(case, obs)
-    st = []
+    closed_keys = {e[1] for e in obs["log"] if e[0] == "close"}
+    st, cl_st = [], []
     for key, got in sorted(obs["streams"].items()):
         n = tab[key]
         if any(not isinstance(v, int) for _, v in got):
-            return f"({cl}, [(Deliver, ONone)], @nil (comp * name * list sample))"
+            return f"({cl}, [(Deliver, ONone)], @nil (comp * name * list sample), @nil (comp * name * list sample))"
         smp = "[" + "; ".join(f"({cZ(t)}, {cZ(v)})" for t, v in got) + "]" if got else "@nil sample"
-        st.append(f"({cZ(n[0])}, {c_name(n)}, {smp})")
+        (cl_st if key in closed_keys else st).append(f"({cZ(n[0])}, {c_name(n)}, {smp})")
     sts = "[" + "; ".join(st) + "]" if st else "@nil (comp * name * list sample)"
-    return f"({cl}, {evs}, {sts})"
+    csts = "[" + "; ".join(cl_st) + "]" if cl_st else "@nil (comp * name * list sample)"
+    return f"({cl}, {evs}, {sts}, {csts})"
 
 
 def show_term(case, obs):
@@ -529,6 +592,8 @@ def oracle(case, obs):
     for p, e in enumerate(log):
         if e[0] == "add":
             add_pos.setdefault(e[2], p)
+    add_failed = {e[2] for e in log if e[0] == "addfail"}      # the API client raised while the request was handled
+    closed_keys = {e[1] for e in log if e[0] == "close"}       # the consumer closed its channel mid-stream
     # requests naming a metric the category has no data for (they must be ignored like unknown ids)
     invalid = {}
     for a in case["actions"]:
@@ -549,15 +614,17 @@ def oracle(case, obs):
         if d in seen_desc:
             continue
         seen_desc.add(d)
-        eff_adds[cid] += 1
         if key not in add_pos:
-            out.append({"what": f"request: {d} was never processed", "finding": None})
+            if key not in add_failed:
+                out.append({"what": f"request: {d} was never processed", "finding": None})
+            elif got:
+                out.append({"what": f"fault: request {d} failed with an API error but its stream received samples", "finding": None})
             continue
         if not supported(cats[cid], a["metric"]):
-            eff_adds[cid] -= 1
             if got:
                 out.append({"what": f"invalid: request {d} for a metric {cats[cid]} data does not provide produced samples", "finding": None})
             continue
+        eff_adds[cid] += 1
         mi = metric_index(a["metric"])
         ks = []
         bad = False
@@ -586,6 +653,8 @@ def oracle(case, obs):
             must = sorted(set(must) | {k for k in accepted[cid] if k >= ks[0]})
         missing = [k for k in must if k not in ks]
         extra = [k for k in ks if k not in accepted[cid]]
+        if key in closed_keys:
+            continue           # its consumer gave the channel up: no claim about what it still gets
         if extra:
             out.append({"what": f"phantom: stream {d} received messages {extra} the API receiver never got", "finding": None})
         if missing:
@@ -595,9 +664,9 @@ def oracle(case, obs):
                                 f"receiver got while it was subscribed{why}", "finding": None})
     # a repeated identical request has no effect: the handler is (re)started at most once per new channel name
     for c in cats:
-        starts = sum(1 for e in log if e[0] == "hstart" and e[1] == c)
+        starts = sum(1 for e in log if e[0] == "hstart" and e[1] == c) - sum(1 for e in log if e[0] == "hcrash" and e[1] == c)
         if starts > eff_adds[c]:
-            out.append({"what": f"repeat: handler of component {c} started {starts} times for {eff_adds[c]} distinct requests", "finding": None})
+            out.append({"what": f"repeat: handler of component {c} was successfully (re)started {starts} times for {eff_adds[c]} distinct accepted requests", "finding": None})
     return out
 
 
@@ -727,6 +796,117 @@ def small_scope(maxlen, gaps=(0, 1, -1)):
                 yield {"mode": "direct", "comps": [[cid, "METER"]], "actions": acts + [dict(MM, gap=0)]}
 
 
+def gen_fault_case(rng):
+    """The API client fails while a request is handled (the real actor restarts after RESTART_DELAY) or while
+    a handler starts (run_forever retries); already served requests are repeated and new ones added around it."""
+    comps = sorted(rng.sample(POOL, rng.choice([1, 2])))
+    mode = "actor" if rng.random() < 0.8 else "direct"
+    case = {"mode": mode, "comps": [list(c) for c in comps], "actions": [], "faults": {}}
+    favs = {c: rng.sample(supported_metrics(k), 2) for c, k in comps}
+    gap = lambda: rng.choice([0, 0, 1, 2, -1, -2, -9, -10])
+    S = lambda cid, metric, ns="a": {"t": "sub", "cid": cid, "metric": metric, "ns": ns, "start": None, "gap": gap()}
+    U = lambda: {"t": "sub", "cid": rng.choice([1, 99]), "metric": "ACTIVE_POWER", "ns": "a", "start": None, "gap": gap()}
+    M = lambda cid: {"t": "msg", "cid": cid, "gap": gap()}
+    acts = []
+    served = []
+    ncomp_calls = 1            # components() is read on the first request and for every unknown id
+    fail_calls = []
+    for _ in range(rng.randint(5, 14)):
+        r = rng.random()
+        cid, cat = rng.choice(comps)
+        if r < 0.35:
+            acts.append(M(cid))
+        elif r < 0.5 and served:
+            acts.append(dict(rng.choice(served), gap=gap()))          # repeat of an already served request
+        elif r < 0.7:
+            ncomp_calls += 1
+            if rng.random() < 0.7:
+                fail_calls.append(ncomp_calls)
+            acts.append(U())                                           # unknown id: components() is re-read
+        else:
+            a = S(cid, rng.choice(favs[cid]), rng.choice("ab"))
+            acts.append(a)
+            served.append(a)
+    if rng.random() < 0.15:
+        fail_calls.append(1)
+    case["actions"] = acts
+    case["faults"]["components"] = sorted(set(fail_calls))
+    if rng.random() < 0.4:
+        cid = rng.choice(comps)[0]
+        case["faults"]["data"] = {str(cid): sorted(rng.sample([1, 2, 3], rng.choice([1, 2])))}
+    return case
+
+
+def fault_boundary_cases():
+    out = []
+    for cid, cat in POOL[:4]:
+        m1, m2 = supported_metrics(cat)[0], supported_metrics(cat)[-1]
+        S = lambda metric, ns="a", gap=0, c=cid: {"t": "sub", "cid": c, "metric": metric, "ns": ns, "start": None, "gap": gap}
+        M = lambda gap=0: {"t": "msg", "cid": cid, "gap": gap}
+        for wait in (0, -1, -9, -12):
+            # served request; an unknown id makes components() fail -> the actor restarts; the served request
+            # is repeated (during the restart delay or after it), then a new one is added
+            out.append({"mode": "actor", "comps": [[cid, cat]], "faults": {"components": [2]}, "actions": [
+                S(m1), M(-1), M(0), S(m1, c=99, gap=0), M(1), S(m1, gap=wait), M(-10), M(0), S(m2, gap=1), M(-1), M(0)]})
+        # first request fails, repeated later; the handler's first start fails twice
+        out.append({"mode": "actor", "comps": [[cid, cat]], "faults": {"components": [1], "data": {str(cid): [1, 2]}}, "actions": [
+            S(m1), M(-10), S(m1, gap=0), M(-1), M(-4), M(-5), S(m1, gap=0), M(0), S(m2, ns="b", gap=0), M(-1)]})
+        out.append({"mode": "direct", "comps": [[cid, cat]], "faults": {"components": [2], "data": {str(cid): [1]}}, "actions": [
+            S(m1), M(-1), S(m1, c=99), M(-5), S(m1), M(0), M(-1)]})
+    return out
+
+
+def gen_close_case(rng):
+    """Several streams on one component; a consumer closes and removes one of them mid-stream."""
+    cid, cat = rng.choice(POOL[:4])
+    mode = "actor" if rng.random() < 0.4 else "direct"
+    n = rng.choice([2, 3, 3, 4])
+    metrics = supported_metrics(cat)
+    subs = []
+    while len(subs) < n:
+        a = {"t": "sub", "cid": cid, "metric": rng.choice(metrics[:4] if rng.random() < 0.5 else metrics),
+             "ns": rng.choice("ab"), "start": None, "gap": rng.choice([0, 0, 1, -1])}
+        if descr(a) not in [descr(x) for x in subs]:
+            subs.append(a)
+    gap = lambda: rng.choice([0, 0, 1, 2, 3, -1])
+    M = lambda: {"t": "msg", "cid": cid, "gap": gap()}
+    acts = list(subs) + [M() for _ in range(rng.randint(1, 3))]
+    victim = rng.choice(subs)
+    acts.append(dict(victim, t="close", gap=gap()))
+    acts += [M() for _ in range(rng.randint(1, 3))]
+    r = rng.random()
+    if r < 0.3:      # an unrelated new subscription restarts the handler afterwards
+        acts.append({"t": "sub", "cid": cid, "metric": rng.choice(metrics), "ns": "c", "start": None, "gap": gap()})
+        acts += [M(), M()]
+    elif r < 0.45:   # the closed one is requested again
+        acts.append(dict(victim, gap=gap()))
+        acts.append(M())
+    elif r < 0.6 and len(subs) > 2:
+        other = rng.choice([x for x in subs if x is not victim])
+        acts.append(dict(other, t="close", gap=gap()))
+        acts += [M(), M()]
+    return {"mode": mode, "comps": [[cid, cat]], "actions": acts}
+
+
+def close_boundary_cases():
+    """Every position in subscription order, 2 to 4 streams (same metric / different metrics)."""
+    out = []
+    for cid, cat in (POOL[0], POOL[2], POOL[1], POOL[3]):
+        ms = supported_metrics(cat)
+        for n in (2, 3, 4):
+            for same_metric in (False, True):
+                subs = [{"t": "sub", "cid": cid, "metric": ms[0] if same_metric else ms[i], "ns": "abcd"[i], "start": None, "gap": 0}
+                        for i in range(n)]
+                for pos in range(n):
+                    for g in (0, 1, -1):
+                        M = lambda gap=0: {"t": "msg", "cid": cid, "gap": gap}
+                        out.append({"mode": "direct" if (pos + n) % 2 else "actor", "comps": [[cid, cat]], "actions":
+                                    subs + [M(-1), M(0), dict(subs[pos], t="close", gap=g), M(0), M(1), M(-1)]})
+            if cat != "METER":
+                break
+    return out
+
+
 def shrink_case(case):
     acts = case["actions"]
     for i in range(len(acts)):
@@ -735,6 +915,8 @@ def shrink_case(case):
         yield {**case, "mode": "direct"}
     if case.get("suspend"):
         yield {k: v for k, v in case.items() if k != "suspend"}
+    if case.get("faults", {}).get("data"):
+        yield {**case, "faults": {k: v for k, v in case["faults"].items() if k != "data"}}
     if case.get("same_ts"):
         yield {**case, "same_ts": []}
     used = {a["cid"] for a in acts}
@@ -800,6 +982,24 @@ def labels_of(case, obs):
             pending_start[e[1]] = False
         elif e[0] == "hcrash":
             lab.add("handler_crash")
+    if any(e[0] == "restart" for e in log):
+        lab.add("actor_restart")
+        if any(e[0] == "add" for e in log[max(i for i, e in enumerate(log) if e[0] == "restart"):]):
+            lab.add("request_after_restart")
+    if any(e[0] == "addfail" for e in log):
+        lab.add("add_metric_api_fault")
+    if any(e[0] == "datafail" for e in log):
+        lab.add("handler_api_fault")
+    order = {}
+    for e in log:
+        if e[0] == "add" and e[2] not in order.setdefault(e[1], []):
+            order[e[1]].append(e[2])
+        elif e[0] == "close":
+            for c, keys in order.items():
+                if e[1] in keys and len(keys) > 1:
+                    pos = keys.index(e[1])
+                    lab.add("closed_first" if pos == 0 else "closed_last" if pos == len(keys) - 1 else "closed_middle")
+            lab.add("channel_closed")
     out += sorted(lab)
     if sum(len(v) for v in obs["streams"].values()) > 0:
         out.append("samples_delivered")
@@ -809,7 +1009,9 @@ def labels_of(case, obs):
 class DSStream(Stream):
     name = "trace"
     coq_header = HEADER
-    n_quick = 2000
+    n_quick = 1500
+    n_fault_quick, n_fault_thorough = 400, 6000
+    n_close_quick, n_close_thorough = 300, 5000
     n_thorough = 30000
     scope_quick = 3
     scope_thorough = 4
@@ -817,7 +1019,13 @@ class DSStream(Stream):
     def gen(self, rng, tier):
         yield from boundary_cases()
         yield from all_metrics_cases()
+        yield from fault_boundary_cases()
+        yield from close_boundary_cases()
         quick = tier == "quick"
+        for _ in range(self.n_fault_quick if quick else self.n_fault_thorough):
+            yield gen_fault_case(rng)
+        for _ in range(self.n_close_quick if quick else self.n_close_thorough):
+            yield gen_close_case(rng)
         yield from small_scope(self.scope_quick if quick else self.scope_thorough,
                                gaps=(0, 1, 2, -1))
         for _ in range(self.n_quick if quick else self.n_thorough):
@@ -841,7 +1049,7 @@ class DSStream(Stream):
     def key(self, case, obs):
         if sum(len(v) for v in obs["streams"].values()) == 0:
             return None
-        return json.dumps([case["comps"], case["actions"], case.get("mode"), case.get("same_ts")], sort_keys=True)
+        return json.dumps([case["comps"], case["actions"], case.get("mode"), case.get("same_ts"), case.get("faults")], sort_keys=True)
 
     def labels(self, case, obs):
         return labels_of(case, obs)
